@@ -986,6 +986,127 @@ func b4(w *World, r *Report) {
 	}
 	scan(q, 0)
 	r.Check(ok, "B-4", "Query:total_power", "the total-power query accumulates TotalPower of every delegatee of the immutable ledger", "the total-power query does not sum the delegatees' TotalPower", fnSite(w, q))
+	// and it does so for every delegatee: on each successful path of the query for
+	// "stakes/total_power" the one iteration over the ledger at the requested height
+	// runs a callback that adds the visited delegatee's TotalPower on all its paths
+	// (no filter), and the answer is built from that sum
+	var listForm ssa.Value // the scan collects every delegatee into this list instead of summing
+	bad, nOK := w.fullScanOnEveryAnswer(q, "stakes/total_power", func(mc *ssa.MakeClosure, cl *ssa.Function) (ssa.Value, bool) {
+		var acc ssa.Value
+		var add *ssa.Store
+		// variant: every delegatee is appended to a list that is summed afterwards
+		for _, b := range cl.Blocks {
+			for _, in := range b.Instrs {
+				st, isS := in.(*ssa.Store)
+				if !isS {
+					continue
+				}
+				if fv, isFV := st.Addr.(*ssa.FreeVar); isFV && w.Canon(st.Val) == "append("+w.Canon(fv)+", [p0])" {
+					only := true
+					for _, b2 := range cl.Blocks {
+						for _, in2 := range b2.Instrs {
+							if s2, ok := in2.(*ssa.Store); ok && s2 != st {
+								if _, fv2 := s2.Addr.(*ssa.FreeVar); fv2 {
+									only = false
+								}
+							}
+						}
+						if _, isR := lastInstr(b2).(*ssa.Return); isR && b2 != cl.Recover && !st.Block().Dominates(b2) {
+							only = false
+						}
+					}
+					if only {
+						for i, f := range cl.FreeVars {
+							if f == fv && i < len(mc.Bindings) {
+								listForm = mc.Bindings[i]
+								return mc.Bindings[i], true
+							}
+						}
+					}
+				}
+			}
+		}
+		for _, b := range cl.Blocks {
+			for _, in := range b.Instrs {
+				st, isS := in.(*ssa.Store)
+				if !isS {
+					continue
+				}
+				fv, isFV := st.Addr.(*ssa.FreeVar)
+				if !isFV {
+					continue
+				}
+				want := "(" + w.Canon(fv) + " + p0.TotalPower)"
+				if cv := w.Canon(st.Val); cv != want && cv != "(p0.TotalPower + "+w.Canon(fv)+")" {
+					return nil, false // the sum is written in another way
+				}
+				if add != nil {
+					return nil, false
+				}
+				add = st
+				for i, f := range cl.FreeVars {
+					if f == fv && i < len(mc.Bindings) {
+						acc = mc.Bindings[i]
+					}
+				}
+			}
+		}
+		if add == nil {
+			return nil, false
+		}
+		for _, b := range cl.Blocks {
+			if _, isR := lastInstr(b).(*ssa.Return); isR && b != cl.Recover && !add.Block().Dominates(b) {
+				return nil, false // a path of the callback skips the delegatee
+			}
+		}
+		return acc, true
+	})
+	if listForm != nil && bad == "" {
+		// the list is handed on whole (never sliced or indexed here) to functions that
+		// accumulate TotalPower over all of it
+		consumers := 0
+		if refs := listForm.Referrers(); refs != nil {
+			for _, ref := range *refs {
+				ld, isLd := ref.(*ssa.UnOp)
+				if !isLd || ld.Op != token.MUL || ld.Referrers() == nil {
+					continue
+				}
+				for _, use := range *ld.Referrers() {
+					switch y := use.(type) {
+					case *ssa.Slice, *ssa.IndexAddr, *ssa.Index:
+						bad = "the collected list is cut before it is summed (" + w.InstrPos(use) + ")"
+					case *ssa.Call:
+						cal := y.Common().StaticCallee()
+						if cal == nil || !w.InModule(cal) || cal.Blocks == nil {
+							continue
+						}
+						sums, cuts := false, false
+						for _, b := range cal.Blocks {
+							for _, in := range b.Instrs {
+								if bo, isB := in.(*ssa.BinOp); isB && bo.Op == token.ADD && strings.HasSuffix(w.Canon(bo), ".TotalPower)") && strings.Contains(w.Canon(bo), "φ") {
+									sums = true
+								}
+								if sl, isSl := in.(*ssa.Slice); isSl {
+									if _, ofParam := stripConv(sl.X).(*ssa.Parameter); ofParam {
+										cuts = true
+									}
+								}
+							}
+						}
+						if sums && !cuts {
+							consumers++
+						} else {
+							bad = w.FName(cal) + " does not sum TotalPower over the whole list"
+						}
+					}
+				}
+			}
+		}
+		if consumers == 0 && bad == "" {
+			bad = "the collected list is not summed"
+		}
+	}
+	r.Check(bad == "" && nOK > 0, "B-4", "Query:total_power:every-delegatee", "on every successful path the answer is the sum of TotalPower over all delegatees at the requested height (the callback has no filter)", "the total-power query leaves delegatees out (or is not the plain sum over the ledger at the requested height): "+bad, fnSite(w, q))
 }
 
 // ---------------------------------------------------------------- C12
@@ -1021,6 +1142,58 @@ func checkC12(w *World, r *Report) {
 // exactly that derivation on every return — otherwise the record is written under
 // one key and looked up / deleted under another (a refunded stake that is never
 // removed is refunded again in every later block).
+// keyExprOf: what the Key method of a ledger item type returns, over all its returns
+// (in terms of `recv`).
+func (w *World) keyExprOf(n *types.Named) string {
+	out := "?no Key method"
+	if km := methodOfNamed(w, n, "Key"); km != nil && km.Blocks != nil {
+		set := map[string]bool{}
+		for _, b := range km.Blocks {
+			if rt, isR := lastInstr(b).(*ssa.Return); isR && b != km.Recover && len(rt.Results) == 1 {
+				set[w.Canon(retResult(rt, 0))] = true
+			}
+		}
+		out = strings.Join(sortedKeys(set), " | ")
+	}
+	return out
+}
+
+var reOwnKey = regexp.MustCompile(`^ledger\.ToLedgerKey\(recv\.(\w+)\)$`)
+
+// ownKeyCall: v is `x.Key()` on a ledger item (a type with Key and Decode): x and the type.
+func (w *World) ownKeyCall(v ssa.Value) (ssa.Value, *types.Named) {
+	c, ok := stripConv(v).(*ssa.Call)
+	if !ok {
+		return nil, nil
+	}
+	var recv ssa.Value
+	switch {
+	case c.Common().IsInvoke() && c.Common().Method.Name() == "Key" && len(c.Common().Args) == 0:
+		recv = c.Common().Value
+	case c.Common().StaticCallee() != nil && c.Common().StaticCallee().Name() == "Key" && c.Common().Signature().Recv() != nil && len(c.Common().Args) == 1:
+		recv = c.Common().Args[0]
+	default:
+		return nil, nil
+	}
+	n, _ := types.Unalias(deref(recv.Type())).(*types.Named)
+	if n == nil || methodOfNamed(w, n, "Key") == nil || methodOfNamed(w, n, "Decode") == nil {
+		return nil, nil
+	}
+	return recv, n
+}
+
+// ownKeyCanon: the canonical form of a key argument, with `x.Key()` of a ledger item
+// written as the derivation its Key method returns on every path
+// (`ledger.ToLedgerKey(x.TxHash)`); anything else as it is.
+func (w *World) ownKeyCanon(v ssa.Value) string {
+	if recv, n := w.ownKeyCall(v); recv != nil {
+		if m := reOwnKey.FindStringSubmatch(w.keyExprOf(n)); m != nil {
+			return "ledger.ToLedgerKey(" + w.Canon(recv) + "." + m[1] + ")"
+		}
+	}
+	return w.Canon(v)
+}
+
 func o6(w *World, r *Report) {
 	reKey := regexp.MustCompile(`^ledger\.ToLedgerKey\((.+)\.(\w+)\)$`)
 	keyOf := map[*types.Named]string{}
@@ -1028,18 +1201,8 @@ func o6(w *World, r *Report) {
 		if s, ok := keyOf[n]; ok {
 			return s
 		}
-		out := "?no Key method"
-		if km := methodOfNamed(w, n, "Key"); km != nil && km.Blocks != nil {
-			set := map[string]bool{}
-			for _, b := range km.Blocks {
-				if rt, isR := lastInstr(b).(*ssa.Return); isR && b != km.Recover && len(rt.Results) == 1 {
-					set[w.Canon(retResult(rt, 0))] = true
-				}
-			}
-			out = strings.Join(sortedKeys(set), " | ")
-		}
-		keyOf[n] = out
-		return out
+		keyOf[n] = w.keyExprOf(n)
+		return keyOf[n]
 	}
 	seen := map[string]bool{}
 	for _, fn := range w.nodeFuncs() {
@@ -1053,6 +1216,17 @@ func o6(w *World, r *Report) {
 			}
 			karg := w.ledgerItemArg(c)
 			if karg == nil {
+				continue
+			}
+			// addressed by the record's own Key(): agrees by construction
+			if recv, n := w.ownKeyCall(karg); recv != nil {
+				if lt := typeStr(ledgerRoot(arms[0].Recv).Type()); strings.Contains(lt, n.Obj().Name()) {
+					key := "key-agreement:" + w.FName(fn) + ":" + n.Obj().Name() + ".Key()"
+					if !seen[key] {
+						seen[key] = true
+						r.OK("O-6", key, "the record is addressed by its own Key()", site(w, c))
+					}
+				}
 				continue
 			}
 			m := reKey.FindStringSubmatch(w.Canon(karg))
@@ -1808,6 +1982,59 @@ func j2(w *World, r *Report) {
 			}
 		}
 		r.Check(okV && nV > 0, "J-2", "DoPunish:recast", "an existing vote is cancelled before the power shrinks and re-cast with the reduced power", "an existing vote keeps the offender's old weight (cancel/re-cast around the reduction is missing)", fnSite(w, dp))
+		// cancelling resets the voter's choice: the choice the vote is re-cast with (and the
+		// test whether there was one) must have been read before the cancellation
+		{
+			resets := false
+			if cvf := w.Method("ctrlers/gov/proposal", "GovProposal", "cancelVote"); cvf != nil {
+				for _, hf := range w.withModuleCallees(cvf, 1) {
+					for _, fs := range w.fieldStores(hf) {
+						if fs.Field.Name() == "Choice" {
+							resets = true
+						}
+					}
+				}
+			}
+			var cvs, dvs []ssa.CallInstruction
+			for _, c := range CallsIn(dp) {
+				switch callName(c.Common()) {
+				case "cancelVote":
+					cvs = append(cvs, c)
+				case "doVote":
+					dvs = append(dvs, c)
+				}
+			}
+			stale := ""
+			if resets {
+				for _, b := range dp.Blocks {
+					for _, in := range b.Instrs {
+						ld, isLd := in.(*ssa.UnOp)
+						if !isLd || ld.Op != token.MUL {
+							continue
+						}
+						fa, isFA := ld.X.(*ssa.FieldAddr)
+						if !isFA || fieldName(fa.X.Type(), fa.Field) != "Choice" {
+							continue
+						}
+						for _, cv := range cvs {
+							if !instrReaches(cv, ld) {
+								continue
+							}
+							after := false
+							for _, dv := range dvs {
+								if instrDominates(dv, ld) {
+									after = true
+								}
+							}
+							if !after {
+								stale = site(w, ld)
+							}
+						}
+					}
+				}
+			}
+			r.Check(stale == "" && len(cvs) > 0 && len(dvs) > 0, "J-2", "DoPunish:recast-choice", "the choice of the re-cast vote is the one read before the cancellation (which resets it)", "the voter's choice is read again after cancelVote has reset it ("+stale+"): the vote is never re-cast and the whole vote disappears", fnSite(w, dp))
+		}
 	}
 	for _, m := range []struct{ fn, want string }{{"cancelVote", "recv.Options[p0.Choice].CancelVote(p0.Power)"}, {"doVote", "recv.Options[p1].DoVote(p0.Power)"}} {
 		fn := needFn(r, "J-2", w, fref{"ctrlers/gov/proposal", "GovProposal", m.fn})
@@ -2149,4 +2376,204 @@ func importNoResurrect(w *World, r *Report, rule string) {
 	if n < 2 {
 		r.Undecided(rule, "no-resurrect", "fewer than 2 record deletions found in consensus context")
 	}
+}
+
+// findCallMatchI: findCallMatch on the form with simple helpers (accessors) looked through.
+func (w *World) findCallMatchI(fn *ssa.Function, re *regexp.Regexp) []ssa.CallInstruction {
+	var out []ssa.CallInstruction
+	w.inlineDeep = true
+	defer func() { w.inlineDeep = false }()
+	for _, c := range CallsIn(fn) {
+		if re.MatchString(w.canonCallI(c.Common())) {
+			out = append(out, c)
+		}
+	}
+	return out
+}
+
+// flowsToResult: what is read from the local variable cell reaches a result of the
+// function (through conversions, calls that take it as an argument, variadic
+// argument arrays and named-result cells): a may-flow (taint) answer.
+func flowsToResult(cell ssa.Value) bool {
+	fn := cell.Parent()
+	if fn == nil {
+		return false
+	}
+	results := map[ssa.Value]bool{}
+	for _, b := range fn.Blocks {
+		if ret, ok := lastInstr(b).(*ssa.Return); ok {
+			for _, rv := range ret.Results {
+				results[rv] = true
+				if ld, isLd := rv.(*ssa.UnOp); isLd && ld.Op == token.MUL {
+					results[ld.X] = true // a named result returned after the deferred calls
+				}
+			}
+		}
+	}
+	seen := map[ssa.Value]bool{}
+	var cells []ssa.Value
+	work := []ssa.Value{}
+	addCell := func(c ssa.Value) {
+		if seen[c] {
+			return
+		}
+		seen[c] = true
+		if results[c] {
+			work = append(work, c)
+		}
+		cells = append(cells, c)
+		if refs := c.Referrers(); refs != nil {
+			for _, r := range *refs {
+				switch y := r.(type) {
+				case *ssa.UnOp:
+					if y.Op == token.MUL {
+						work = append(work, y)
+					}
+				case *ssa.Slice:
+					work = append(work, y)
+				}
+			}
+		}
+	}
+	addCell(cell)
+	for len(work) > 0 {
+		v := work[len(work)-1]
+		work = work[:len(work)-1]
+		if results[v] {
+			return true
+		}
+		if seen[v] && v != cell {
+			if _, isCell := v.(*ssa.Alloc); !isCell {
+				continue
+			}
+		}
+		seen[v] = true
+		refs := v.Referrers()
+		if refs == nil {
+			continue
+		}
+		for _, r := range *refs {
+			switch y := r.(type) {
+			case *ssa.Return:
+				return true
+			case *ssa.Store:
+				if y.Val != v {
+					continue
+				}
+				switch a := y.Addr.(type) {
+				case *ssa.Alloc:
+					if results[a] {
+						return true
+					}
+					addCell(a)
+				case *ssa.IndexAddr:
+					if al, ok := a.X.(*ssa.Alloc); ok {
+						addCell(al)
+					}
+				}
+			case *ssa.MakeInterface, *ssa.Convert, *ssa.ChangeType, *ssa.Slice, *ssa.BinOp, *ssa.Phi, *ssa.Extract, *ssa.TypeAssert, *ssa.ChangeInterface:
+				if val, ok := y.(ssa.Value); ok && !seen[val] {
+					work = append(work, val)
+				}
+			case *ssa.Call:
+				if !seen[y] {
+					work = append(work, y)
+				}
+			}
+		}
+	}
+	return false
+}
+
+// fullScanOnEveryAnswer evaluates the stake controller's Query for one request path:
+// on each successful path exactly one iteration over the immutable delegatee ledger
+// must run, with a callback that cb accepts (cb returns the local variable the
+// callback collects into), nothing else may write that variable, and the answer
+// must be built from it. Returns what is wrong ("" if nothing) and the number of
+// successful paths.
+func (w *World) fullScanOnEveryAnswer(q *ssa.Function, path string, cb func(*ssa.MakeClosure, *ssa.Function) (ssa.Value, bool)) (string, int) {
+	var acc ssa.Value
+	callbackOK := func(c ssa.CallInstruction) bool {
+		args := c.Common().Args
+		if len(args) == 0 {
+			return false
+		}
+		mc, isMC := args[len(args)-1].(*ssa.MakeClosure)
+		if !isMC {
+			return false
+		}
+		cl, _ := mc.Fn.(*ssa.Function)
+		if cl == nil || len(cl.Params) != 1 {
+			return false
+		}
+		a, ok := cb(mc, cl)
+		if ok {
+			acc = a
+		}
+		return ok
+	}
+	ev := func(in ssa.Instruction) string {
+		c, isC := in.(ssa.CallInstruction)
+		if !isC {
+			return ""
+		}
+		nm := callName(c.Common())
+		if strings.HasPrefix(nm, "Iterate") && (c.Common().IsInvoke() || w.ledgerArms(c) != nil) {
+			rcv := c.Common().Value
+			if !c.Common().IsInvoke() {
+				rcv, _ = callRecvArgs(c.Common())
+			}
+			// the immutable ledger of delegatees (that it is opened at the requested height is C19 Q-3)
+			if rcv != nil && strings.Contains(typeStr(rcv.Type()), "Delegatee") {
+				if k, _ := w.ledgerKind(rcv); k == "scratch" && callbackOK(c) {
+					return "SCAN"
+				}
+			}
+			return "ITER?" + w.canonCall(c.Common(), 0)
+		}
+		return ""
+	}
+	eval := func(v ssa.Value) (bool, bool) {
+		if bo, isB := v.(*ssa.BinOp); isB && (bo.Op == token.EQL || bo.Op == token.NEQ) {
+			for _, pr := range [][2]ssa.Value{{bo.X, bo.Y}, {bo.Y, bo.X}} {
+				if c, isC := pr[1].(*ssa.Const); isC && c.Value != nil && c.Value.Kind() == constant.String && w.Canon(pr[0]) == "p0.Path" {
+					return (constant.StringVal(c.Value) == path) == (bo.Op == token.EQL), true
+				}
+			}
+		}
+		return false, false
+	}
+	saved := w.branchMarkers
+	w.branchMarkers = false
+	ps, complete := w.enumPaths(q, eval, ev, 4000)
+	w.branchMarkers = saved
+	bad, nOK := "", 0
+	if !complete {
+		bad = "path enumeration incomplete"
+	}
+	for _, p := range ps {
+		if p.Term != "ok" {
+			continue
+		}
+		nOK++
+		if len(p.Events) != 1 || p.Events[0] != "SCAN" {
+			bad = "a successful answer is built from [" + strings.Join(p.Events, ", ") + "]"
+		} else if acc == nil || !flowsToResult(acc) {
+			bad = "the answer is not built from what the scan collected"
+		}
+	}
+	// nothing but the scan's callback fills the collection
+	if acc != nil && bad == "" {
+		for _, b := range q.Blocks {
+			for _, in := range b.Instrs {
+				if st, isS := in.(*ssa.Store); isS && st.Addr == acc {
+					if c, isC := st.Val.(*ssa.Const); isC && (c.IsNil() || c.Value != nil && c.Value.Kind() == constant.Int && c.Int64() == 0) {
+						continue // the initial empty value
+					}
+					bad = "the collection is also written outside the scan (" + w.InstrPos(in) + ")"
+				}
+			}
+		}
+	}
+	return bad, nOK
 }
